@@ -46,6 +46,9 @@ fn vcoord(i: usize) -> (f32, f32) {
 #[derive(Clone, Debug)]
 struct Variant {
     gzip: bool,
+    /// whether the vertex file is compressed (the edge file follows `gzip`): the two files are read independently, so one
+    /// may be compressed and the other not
+    gzip_vertices: bool,
     order: usize,
     /// 0 = none; 1 = a name column in second place; 2 = a free-text column in FIRST place whose values start with '#', '-', a
     /// space or a quote (a record is whatever the rows say, wherever its text begins), and in the edge file likewise
@@ -96,13 +99,13 @@ fn write_graph(dir: &Path, net: &Net, v: &Variant) -> (String, String) {
         }
         vs.push_str(&(row.join(",") + "\n"));
     }
-    let vp = dir.join(format!("vertices{}", ext));
+    let vp = dir.join(format!("vertices{}", if v.gzip_vertices { ".csv.gz" } else { ".csv" }));
     if v.trailing_newline == 0 {
         vs.pop();
     } else if v.trailing_newline == 2 {
         vs.push('\n');
     }
-    write(&vp, &vs, v.gzip);
+    write(&vp, &vs, v.gzip_vertices);
     let mut es = String::from(if v.extra_column == 2 { "road_name,edge_id,src_vertex_id,dst_vertex_id,distance\n" } else if v.edge_extra_column { "edge_id,src_vertex_id,dst_vertex_id,distance,road_name\n" } else { "edge_id,src_vertex_id,dst_vertex_id,distance\n" });
     for (i, (s, d, l)) in net.edges.iter().enumerate() {
         if v.extra_column == 2 {
@@ -275,12 +278,20 @@ pub fn run(tier: Tier) -> i32 {
         });
     }
     let mut variants = vec![];
-    for gzip in [false, true] {
+    for (gzip, gzip_vertices) in [(false, false), (true, true), (false, true), (true, false)] {
+        let mixed = gzip != gzip_vertices;
         for order in 0..6 {
+            // files of different compression: two of the six column orders, with and without the free-text column
+            if mixed && order % 3 != 0 {
+                continue;
+            }
             for extra_column in [0u8, 1, 2] {
+                if mixed && extra_column == 1 {
+                    continue;
+                }
                 for counts_given in [(true, true), (false, false), (true, false), (false, true)] {
                     for trailing_newline in [1u8, 0, 2] {
-                        variants.push(Variant { gzip, order, extra_column, counts_given, edge_extra_column: order % 2 == 1, trailing_newline });
+                        variants.push(Variant { gzip, gzip_vertices, order, extra_column, counts_given, edge_extra_column: order % 2 == 1, trailing_newline });
                     }
                 }
             }
@@ -302,7 +313,7 @@ pub fn run(tier: Tier) -> i32 {
             let (ep, vp) = write_graph(&dir, net, v);
             let vc = v.clone();
             let case = move || json!({"net_name": name, "net": net, "variant": format!("{:?}", vc)});
-            let comp = format!("graph_from_files.{}.{}", if v.gzip { "gzip" } else { "plain" }, match v.counts_given { (true, true) => "counts_given", (false, false) => "counts_scanned", (true, false) => "edge_count_given_vertex_count_scanned", (false, true) => "edge_count_scanned_vertex_count_given" });
+            let comp = format!("graph_from_files.{}.{}", match (v.gzip, v.gzip_vertices) { (true, true) => "gzip", (false, false) => "plain", (true, false) => "edges_gzip_vertices_plain", (false, true) => "edges_plain_vertices_gzip" }, match v.counts_given { (true, true) => "counts_given", (false, false) => "counts_scanned", (true, false) => "edge_count_given_vertex_count_scanned", (false, true) => "edge_count_scanned_vertex_count_given" });
             let r = guarded(|| Graph::from_files(&ep, &vp, if v.counts_given.0 { Some(net.m()) } else { None }, if v.counts_given.1 { Some(net.n) } else { None }, Some(false)));
             match r {
                 Err(p) => st.violation(&comp, "no_panic", net.size(), || p.clone(), &case),
@@ -456,9 +467,9 @@ pub fn run(tier: Tier) -> i32 {
     finish(
         &info,
         st,
-        "state = one edge/vertex list (all G(3,m,2) multigraphs with self loops, stars and hubs with in/out degree 0..8, isolated vertices); transition = one load of files written in one variant (plain/gzip x 6 vertex column orders x extra columns (none / a name in second place / free text in first place beginning with '#', '-', a space or a quote, in both files) x each of the two counts given or scanned (4 modes) x file ending (no final newline / one / a blank line after the last row)) through Graph::from_files and DefaultGraphBuilder, compared accessor by accessor with the lists; per-edge tables of 1..40 rows; bindings accessors; non-trivial = at least two edges",
+        "state = one edge/vertex list (all G(3,m,2) multigraphs with self loops, stars and hubs with in/out degree 0..8, isolated vertices); transition = one load of files written in one variant (plain/gzip chosen for the edge file and for the vertex file separately x 6 vertex column orders x extra columns (none / a name in second place / free text in first place beginning with '#', '-', a space or a quote, in both files) x each of the two counts given or scanned (4 modes) x file ending (no final newline / one / a blank line after the last row)) through Graph::from_files and DefaultGraphBuilder, compared accessor by accessor with the lists; per-edge tables of 1..40 rows; bindings accessors; non-trivial = at least two edges",
         true,
-        json!({"enumerated_family": spec.describe(), "max_degree": 8, "variants": 432}),
+        json!({"enumerated_family": spec.describe(), "max_degree": 8, "variants": 528}),
         vec!["vertex coordinates are written as the shortest decimal rendering of an f32, so the comparison is exact".into()],
     )
 }
